@@ -582,7 +582,7 @@ PROPS.update({
         l1=[('basic', 3000, 100000), ('cmpN', 2000, 50000), ('ext', 24000, 640000)],
         labels=r':(Clone|Debug|Default|PartialEq|Eq|PartialOrd|Ord|Hash)(#1)?$',
         kinds=('panic', 'nondet', 'parse', 'count', 'class'),
-        extra=extra_twins(1200, 24000),
+        extra=extras(extra_twins(1200, 24000), extra_rustc(l2gen.gen_lint_plain_case, 160, 3000)),
         level_text='Lean corollaries: for attribute-free items the documented rule proved in C01/C06/C07/C10/C11 is the standard derive\'s rule; L2: twin programs (same definition under derive_ex and under derive) over a shape grammar incl. empty enums, unsized tails, raw identifiers, lifetimes, const parameters, parameter defaults; all values / pairs, ten format specs, clone_from over all pairs; the compile-on-every-shape part is decided by rustc, not by a theorem',
     ),
     'C13': dict(
@@ -608,7 +608,7 @@ PROPS.update({
         labels=r'^e\d+:|^impl',
         # the hygiene theorem speaks about every token of every template: any token disagreement breaks its tie to the code
         kinds=('panic', 'nondet', 'parse', 'tokens', 'tokens-body', 'count'),
-        extra=extras(extra_rustc(l2gen.gen_c20_case, 900, 15000), extra_rustc(l2gen.gen_seq_case, 120, 3000), extra_rustc(l2gen.gen_macro_case, 120, 3000),
+        extra=extras(extra_rustc(l2gen.gen_c20_case, 900, 15000), extra_rustc(l2gen.gen_seq_case, 120, 3000), extra_rustc(l2gen.gen_macro_case, 120, 3000), extra_rustc(l2gen.gen_lint_case, 160, 3000),
                      # misuse is answered by derive_ex with a message of its own — and by nothing else
                      extra_verdicts(l2gen.gen_c14_error_case, 60, 720)),
         level_text='partial: rustc is the judge. Proved (Lean): the rule set R1-R5 the emitted templates obey (reserved generic names; helper items free of the field type; Self-expanded generics in the free Eq-assertion function, and expand_self leaves no Self behind; parenthesised && operands; by-value scrutinee for arm-less matches) and that derive_ex answers exactly documented misuse with an error of its own (C05). Validated, not proved: completeness of the rule set - a dedicated grammar of well-typed inputs (every trait list x shapes incl. empty / single-variant enums x generics with bounds, defaults, where-clauses mentioning Self x by/key on first / middle / last and generic fields x both entry points) is compiled metadata-only under #![deny(warnings)]; any diagnostic is a violation',
